@@ -126,17 +126,32 @@ def probe_naive(n, incl):
     return {"ok": err <= 1e-12 and err2 <= 1e-12, "err": err, "err_repeat": err2, "shape": list(trj.shape)}
 
 
-def probe_repeated(nsub):
+def probe_repeated(nsub, case=0):
+    """RepeatedStepper(inner, n) = n calls of inner, effective dt = n*dt — on WHITE-NOISE states (content in the highest
+    resolved mode): odd grids for every inner stepper (no Nyquist mode), even grids for even-order symbols (diffusion),
+    where the Fourier-space sub-stepping and the physical-space loop agree for every state"""
     import jax.numpy as jnp
     ex = _ex()
-    st = ex.stepper.Burgers(1, 3.0, 15, 0.02)
+    rng = np.random.default_rng(100 + case)
+    mk = [
+        lambda: (ex.stepper.Burgers(1, 3.0, 15, 0.02), 1, 1, 15, 0.02),
+        lambda: (ex.stepper.Diffusion(1, 2.0, 9, 0.05, diffusivity=0.03), 1, 1, 9, 0.05),
+        lambda: (ex.stepper.Advection(1, 2.0, 9, 0.05, velocity=0.7), 1, 1, 9, 0.05),
+        lambda: (ex.stepper.KortewegDeVries(1, 8.0, 11, 0.01), 1, 1, 11, 0.01),
+        lambda: (ex.stepper.Diffusion(2, 2.0, 8, 0.05, diffusivity=0.03), 1, 2, 8, 0.05),
+        lambda: (ex.stepper.Burgers(2, 3.0, 7, 0.02, diffusivity=0.05), 2, 2, 7, 0.02),
+        lambda: (ex.stepper.Diffusion(3, 2.0, 6, 0.05, diffusivity=0.03), 1, 3, 6, 0.05),
+    ][case]
+    st, C, D, N, dt = mk()
     rep = ex.RepeatedStepper(st, nsub)
-    u0 = jnp.sin(2 * jnp.pi * jnp.arange(15) / 15)[None, :]
+    u0 = jnp.asarray(rng.normal(size=(C,) + (N,) * D) * 0.3) if case else jnp.sin(2 * jnp.pi * jnp.arange(15) / 15)[None, :]
     u = u0
     for _ in range(nsub):
         u = st(u)
     err = float(jnp.max(jnp.abs(rep(u0) - u)))
-    return {"ok": err <= 1e-12 and abs(rep.dt - nsub * 0.02) < 1e-15, "err": err, "dt": float(rep.dt)}
+    sc = float(jnp.max(jnp.abs(u))) + 1e-300
+    return {"ok": err <= 1e-12 * max(1.0, sc) and abs(rep.dt - nsub * dt) < 1e-15, "err": err, "dt": float(rep.dt), "case": case,
+            "stepper": type(st).__name__, "D": D, "N": N}
 
 
 def probe_forced():
@@ -231,10 +246,13 @@ def oracle(ctx, deep):
                 fails.append({"key": f"C14:rollout:include_init={incl}", "what": f"rollout/repeat differ from the naive loop at n={n}, include_init={incl}",
                               "probe": "naive", "args": {"n": n, "incl": incl}, "observed": r})
     for nsub in ([1, 3] if not deep else [1, 2, 3, 5]):
-        r = probe_repeated(nsub)
-        if not r["ok"]:
-            fails.append({"key": "C14:repeated", "what": f"RepeatedStepper({nsub}) differs from {nsub} inner steps",
-                          "probe": "repeated", "args": {"nsub": nsub}, "observed": r})
+        for case in range(7):
+            r = probe_repeated(nsub, case)
+            ctx.count(("oracle_repeated", nsub, case))
+            if not r["ok"]:
+                fails.append({"key": "C14:repeated", "what": f"RepeatedStepper({r['stepper']} D={r['D']} N={r['N']}, {nsub}) differs from {nsub} inner steps by {r['err']:.2e} on a white-noise state",
+                              "probe": "repeated", "args": {"nsub": nsub, "case": case}, "observed": r})
+                break
     r = probe_forced()
     if not r["ok"]:
         fails.append({"key": "C14:forced", "what": "ForcedStepper differs from step(u + dt f)", "probe": "forced", "args": {}, "observed": r})
